@@ -40,7 +40,7 @@ RULE = ("random small screens (1-7 plates, arity 1-3, 1-2 samples, few names/dos
         "prescribed scores from a pool with ties, -inf and 0.0, every n_chunks in 1..candidates+3 and every chunk index, "
         "chunk files combined in all orders (<=5 chunks, thorough) or sampled orders, with no policy and with a filtering "
         "policy; for the last chunk count of every case with a batch also STALE score files (scored for a prefix of the batch, so they list plates "
-        "that are in the batch now) through select_next_plate and its CLI; one wide screen with 150 plates (thorough: also 300; ids beyond a byte, "
+        "that are in the batch now) through select_next_plate and its CLI; one wide screen with 300 plates (thorough: 150, 300, 600; ids beyond a signed / unsigned byte, "
         "ties at -inf on large ids); thorough adds the exhaustive (observed?, in batch?) assignment of every plate for fixed screens with <=6 plates. "
         "Non-trivial: >=2 candidates, n_chunks>=2, and either a batch that conditions the plates or >=2 allowed plates with a tie or -inf.")
 
@@ -667,7 +667,7 @@ def run(ctx, res):
         # ---- wide screens: more than 127 / 255 plates, one or two experiments per plate, so that plate ids do not fit a byte
         #      (a narrower id dtype in the holder or the file would wrap them) and chunks hold many plates
         wrng = ctx.subrng("c06-wide")
-        for P in ([150] if ctx.tier == "quick" else [150, 300]):
+        for P in ([300] if ctx.tier == "quick" else [150, 300, 600]):
             tn, td, sn, pn = [], [], [], []
             for p_ in range(P):
                 for _ in range(1 if wrng.random() < 0.7 else 2):
@@ -679,7 +679,7 @@ def run(ctx, res):
             raw = dict(ctrl="control", arity=2, tnames=tn, tdoses=td, snames=sn, pnames=pn, obs=[0.5] * len(pn),
                        mask=[obsd[int(x[1:])] for x in pn], tmap=None, smap=None)
             unobs = [p_ for p_ in range(P) if not obsd[p_]]
-            hi = [p_ for p_ in unobs if p_ >= 128]
+            hi = [p_ for p_ in unobs if p_ >= (256 if P > 280 else 128)]
             batch = wrng.sample(hi, 2)
             table = {p_: wrng.choice(SCORE_POOL[3:]) for p_ in range(P)}
             # the minimum sits on plates with large ids, twice (a tie)
@@ -687,7 +687,7 @@ def run(ctx, res):
                 table[p_] = float("-inf")
             allowed = sorted(wrng.sample(range(P), P // 2) + [x for x in hi if table[x] == float("-inf")][:1])
             case = {"raw": raw, "batch": batch, "table": {str(k): enc_score(v) for k, v in table.items()}, "total": True, "allowed": sorted(set(allowed)),
-                    "ns": [1, 4] if ctx.tier == "quick" else [1, 4, len(unobs) + 1], "all_orders_upto": 0, "n_orders": 1, "cli": ctx.tier != "quick" or P == 150,
+                    "ns": [1, 4] if ctx.tier == "quick" else [1, 4, len(unobs) + 1], "all_orders_upto": 0, "n_orders": 1, "cli": P <= 300,
                     "shipped": False, "seed": P, "stale": True}
             cands = run_case(ctx, res, env, case, lines, expect, meta, light=False)
             res.count("wide.P%d" % P)
